@@ -123,7 +123,7 @@ VARIANTS = [
     dict(property="C06", name="needed-from-mean-ratio", file=SINC, expect="R-C06-provision/SincFixedOut",
          old="let advance = frames * t_ratio + 0.5 * (t_ratio_end - t_ratio) * (frames + 1.0);", new="let advance = frames / (0.5 * self.resample_ratio + 0.5 * self.target_ratio);"),
     dict(property="C06", name="needed-reach-too-small", file=FAST, expect="R-C06-provision/FastFixedOut::process_into_buffer",
-         old="            + POLYNOMIAL_LEN_U as f32)\n            .ceil() as usize;", new="            + (POLYNOMIAL_LEN_U / 2) as f32)\n            .ceil() as usize;"),
+         old="            + POLYNOMIAL_LEN_U as f64)\n            .ceil() as usize;", new="            + (POLYNOMIAL_LEN_U / 2) as f64)\n            .ceil() as usize;"),
     # ---------------- C08
     dict(property="C08", name="septic-coefficient-typo", file=FAST, expect="interp_septic", old="- t!(378.0) * f\n        + t!(119.0) * g", new="- t!(387.0) * f\n        + t!(119.0) * g"),
     dict(property="C08", name="quintic-sign", file=FAST, expect="interp_quintic", old="let k5 = -a + t!(5.0) * b - t!(10.0) * c", new="let k5 = -a + t!(5.0) * b + t!(10.0) * c"),
@@ -400,6 +400,15 @@ BENIGN = [
                 ("    for (chan, wave_in) in wave_in.iter().enumerate().filter(|(chan, _)| mask[*chan]) {", "    if wave_out.len() != channels {\n        return Err(ResampleError::WrongNumberOfOutputChannels {\n            expected: channels,\n            actual: wave_out.len(),\n        });\n    }\n    for (chan, wave_in) in wave_in.iter().enumerate().filter(|(chan, _)| mask[*chan]) {")]),
     dict(name="kernel-accumulators-renamed", file=SSE, properties=["C15", "C03"],
          regex=[(r"\bacc0\b", "sum_a"), (r"\bacc1\b", "sum_b"), (r"\bw_idx\b", "wi"), (r"\bs_idx\b", "si"), (r"\btemp4\b", "t4")]),
+    dict(name="make-sincs-locals-renamed", file=SINCRS, properties=["C01", "C02", "C14"],
+         regex=[(r"\\btotpoints\\b", "total"), (r"\\bsum\\b", "norm"), (r"\\by\\b", "taps"), (r"\\bsincs\\b", "table"), (r"\\bwindow\\b(?!func)", "win"), (r"\\bval\\b", "tap")]),
+    dict(name="wrapper-locals-renamed", file=LIB, properties=["C16", "C13", "C04"],
+         regex=[(r"\\bframes\\b", "nframes"), (r"\\bwave_in_padded\\b", "padded"), (r"\\bchan_out\\b", "one"), (r"\\bout_len\\b", "written"), (r"\\bframes_in\\b", "have"), (r"\\bactual_len\\b", "got")]),
+    dict(name="ctor-locals-renamed", file=FAST, properties=["C10", "C03", "C05", "C06", "C04", "C14"],
+         edits=[("        let needed_input_size =\n            (chunk_size as f64 / resample_ratio).ceil() as usize + POLYNOMIAL_LEN_U / 2;\n        let buffer_channel_length = ((max_resample_ratio_relative + 1.0) * needed_input_size as f64)",
+                 "        let first_request =\n            (chunk_size as f64 / resample_ratio).ceil() as usize + POLYNOMIAL_LEN_U / 2;\n        let buffer_channel_length = ((max_resample_ratio_relative + 1.0) * first_request as f64)"),
+                ("            needed_input_size,\n            last_index: -(POLYNOMIAL_LEN_I / 2) as f64,\n            current_buffer_fill: needed_input_size,",
+                 "            needed_input_size: first_request,\n            last_index: -(POLYNOMIAL_LEN_I / 2) as f64,\n            current_buffer_fill: first_request,")]),
     dict(name="septic-coefficients-reassociated", file=FAST, properties=["C08"],
          old="    let k0 = t!(5040.0) * d;", new="    let k0 = d * t!(5040.0);"),
 ]
